@@ -48,7 +48,7 @@ class QuotientWorld(Scenario):
             uni.append((quo << r) | rng.choice(rems))
         uni = sorted(set(uni))
         cfg = {
-            "q": q, "auto_expand": rng.chance(1, 2), "mlf": rng.choice((0.5, 0.7, 0.85, 0.85, 1.0)),
+            "q": q, "auto_expand": rng.chance(1, 2), "mlf": rng.choice((0.5, 0.7, 0.85, 0.85, 1.0, 1.5)),
             "uni": uni, "keyed": rng.chance(1, 3), "steps": rng.between(5, self.max_steps),
             "avoid_full": rng.chance(1, 2),
         }
@@ -170,9 +170,13 @@ class QuotientWorld(Scenario):
             n = rng.between(1, 6)
             return {"op": "merge", "q": self.f.quotient if rng.chance(1, 2) else rng.between(3, 6),
                     "items": [rng.below(U) for _ in range(n)], "poke": [rng.below(U) for _ in range(rng.between(1, 3))]}
+        if r < 96 and not cfg.get("big"):
+            # the documented generator hashes(): obtained now, consumed after further updates / only partly / two at once
+            return {"op": "walk", "mode": rng.choice(("late", "partial", "pair")), "i": rng.below(U), "api": "alt",
+                    "take": rng.between(0, 3)}
         if r < 98:
             return {"op": "auto", "v": rng.chance(1, 2)}
-        return {"op": "mlf", "v": rng.choice((0.5, 0.7, 0.85, 1.0))}
+        return {"op": "mlf", "v": rng.choice((0.5, 0.7, 0.85, 1.0, 1.5, 2.0))}
 
     # ------------------------------------------------------------------ world
     def setup(self, cfg):
@@ -244,7 +248,13 @@ class QuotientWorld(Scenario):
 
     def will_autoresize(self):
         # the documented rule: grow before an add when auto_expand and load factor >= max_load_factor
-        return self.auto and (len(self.model) / self.f.size) >= self.mlf
+        # the threshold is read from the object: the library puts it back to its default whenever the table is rebuilt
+        # (resize), which no listed property speaks about
+        return self.auto and (len(self.model) / self.f.size) >= self.f.max_load_factor
+
+    def grows(self):
+        """auto_expand with a threshold a table can reach (a load factor never exceeds 1)"""
+        return self.auto and self.f.max_load_factor <= 1.0
 
     def layout(self):
         buf = io.StringIO()
@@ -257,6 +267,7 @@ class QuotientWorld(Scenario):
 
     # ------------------------------------------------------------------ apply
     allow_big = False  # wide tables (quotient 15..24): only where the oracle avoids full scans per step (C04)
+    refusal_optional = False  # C04: its statement only speaks about calls that did not raise
     try_refusals = False  # C14/C19: also issue adds that must be refused (full table), then re-check their oracle
     hang_is_violation = False  # termination is C04's clause; elsewhere a call that does not return ends the run's claim
 
@@ -296,6 +307,11 @@ class QuotientWorld(Scenario):
 
                     st, v = self.call(lambda: f.add_alt(h), f"add_alt({h:#x}) on a full table")
                     ctx.fault("add_refused_table_full")
+                    if st == "ok" and self.refusal_optional:
+                        # (C04) the call did not raise, so by the statement the hash counts as added
+                        self.model.add(h)
+                        self.observe(step)
+                        return {"r": "accepted_on_full_table"}
                     if st != "exc" or not isinstance(v, QuotientFilterError):
                         raise Violation("refusal_missing", f"add of a new hash to a full table that cannot grow returned "
                                                            f"{v!r} instead of raising QuotientFilterError", self.full_sig())
@@ -344,7 +360,7 @@ class QuotientWorld(Scenario):
                 return "skip"
             if len(self.model) >= (1 << target):
                 return "skip"  # legitimately refused
-            if cfg["avoid_full"] and len(self.model) + 1 >= (1 << target) and not self.auto:
+            if cfg["avoid_full"] and len(self.model) + 1 >= (1 << target) and not self.grows():
                 return "skip"
             st, v = self.call(lambda: f.resize(q2), f"resize({q2})")
             if st == "ok":
@@ -359,7 +375,7 @@ class QuotientWorld(Scenario):
         elif op == "merge":
             items = [uni[i] for i in step["items"] if i < len(uni)]
             union = self.model | set(items)
-            if not self.auto and len(union) > f.size:
+            if not self.grows() and len(union) > f.size:
                 if not self.try_refusals:
                     return "skip"
                 # a merge that cannot fit must be refused (QuotientFilterError, possibly half-way); the filter that is
@@ -389,7 +405,7 @@ class QuotientWorld(Scenario):
                         self.model.add(h)
                 self.observe(step)
                 return {"r": "refused"}
-            if cfg["avoid_full"] and not self.auto and len(union) >= f.size:
+            if cfg["avoid_full"] and not self.grows() and len(union) >= f.size:
                 return "skip"
             second = self.QF(quotient=step["q"], auto_expand=True, hash_function=self.hf)  # None = library default
             for h in items:
@@ -408,6 +424,54 @@ class QuotientWorld(Scenario):
                 for h in before2[:2]:
                     second.remove_alt(h)
             ctx.fault("merge")
+        elif op == "walk":
+            i = step["i"]
+            if i >= len(uni):
+                return "skip"
+            h = uni[i]
+            settings = (bool(f.auto_expand), f.max_load_factor)
+            it = f.hashes()
+            it2 = f.hashes() if step["mode"] == "pair" else None
+            head = []
+            if step["mode"] != "late":
+                for _ in range(step["take"]):
+                    st, v = self.call(lambda: next(it, None), "next(hashes())")
+                    if st == "ok" and v is not None:
+                        head.append(v)
+                if it2 is not None:
+                    self.call(lambda: next(it2, None), "next(hashes())")
+            ctx.fault("walk_" + step["mode"])
+            if step["mode"] == "late":
+                # an update between obtaining the generator and consuming it: what it yields is the content at the
+                # time it is consumed (nothing has run before the first next())
+                new = h not in self.model
+                if not (new and not self.will_autoresize() and len(self.model) + 1 >= f.size) and not (
+                        self.will_autoresize() and f.quotient >= Q_MAX + 2):
+                    st, v = self.call(lambda: f.add_alt(h), f"add_alt({h:#x})")
+                    if st == "ok":
+                        self.model.add(h)
+                st, got = self.call(lambda: sorted(it), "list(hashes())")
+                if st == "ok" and got != sorted(self.model):
+                    raise Violation("walk_wrong", f"hashes() obtained before add_alt({h:#x}) and consumed after it yields "
+                                                  f"{[hex(x) for x in got][:12]}, stored {[hex(x) for x in sorted(self.model)][:12]}",
+                                    self.full_sig())
+            elif step["mode"] == "pair":
+                # two walks in flight, finished in the other order than started, the rest dropped
+                self.call(lambda: list(it), "list(hashes())")
+                del it2
+                import gc
+
+                gc.collect()
+            else:
+                del it  # a walk that was started and abandoned
+                import gc
+
+                gc.collect()
+            if step["mode"] != "late" and (bool(f.auto_expand), f.max_load_factor) != settings:
+                raise Violation("query_changed_setting", f"walking hashes() ({step['mode']}) changed (auto_expand, "
+                                                         f"max_load_factor) from {settings} to "
+                                                         f"{(bool(f.auto_expand), f.max_load_factor)}", self.full_sig())
+            st = "ok"
         elif op == "auto":
             f.auto_expand = step["v"]
             self.auto = bool(step["v"])
